@@ -1419,7 +1419,25 @@ fn run_b5(line: &str) -> Outcome {
 
 fn gen_b5(rng: &mut Rng) -> String {
     let forced = rng.chance(1, 3);
-    let (cp, bytes, want): (u16, Vec<u8>, String) = match rng.below(3) {
+    let (cp, bytes, want): (u16, Vec<u8>, String) = match rng.below(5) {
+        3 | 4 => {
+            // the double-byte code pages: a few characters each (lead/trail bytes incl. 0x5C and a single-byte kana), mixed with ASCII
+            const T: [(u16, &[(&str, &[u8])]); 4] = [
+                (932, &[("日", &[0x93, 0xFA]), ("本", &[0x96, 0x7B]), ("語", &[0x8C, 0xEA]), ("ア", &[0x83, 0x41]), ("ｱ", &[0xB1]), ("表", &[0x95, 0x5C]), ("A", &[0x41])]),
+                (936, &[("中", &[0xD6, 0xD0]), ("文", &[0xCE, 0xC4]), ("表", &[0xB1, 0xED]), ("格", &[0xB8, 0xF1]), ("A", &[0x41])]),
+                (949, &[("한", &[0xC7, 0xD1]), ("글", &[0xB1, 0xDB]), ("표", &[0xC7, 0xA5]), ("A", &[0x41])]),
+                (950, &[("中", &[0xA4, 0xA4]), ("文", &[0xA4, 0xE5]), ("表", &[0xAA, 0xED]), ("格", &[0xAE, 0xE6]), ("A", &[0x41])]),
+            ];
+            let (cp, toks) = *rng.pick(&T);
+            let n = rng.range(1, 12);
+            let (mut b, mut w) = (vec![], String::new());
+            for _ in 0..n {
+                let (c, by) = *rng.pick(toks);
+                w.push_str(c);
+                b.extend_from_slice(by);
+            }
+            (cp, b, w)
+        }
         0 => {
             // code page 1252: ASCII and the letters 0xC0..0xFF (same code points as Latin-1)
             let n = rng.range(1, 20) as usize;
@@ -1843,13 +1861,17 @@ fn corpus() -> Vec<(String, Option<String>)> {
     v.push((format!("b5 65001 0 {0},{0}", hexs("Caf\u{e9} \u{65e5}\u{672c}".as_bytes())), None));
     v.push((format!("b5 65001 1 {0},{0}", hexs("na\u{ef}ve".as_bytes())), None));
     v.push(("b5 1252 0 436166e9,436166c3a9".into(), None));
-    // KNOWN finding D44 (unchanged reader): BIFF5 byte strings under the double-byte code pages 932 / 936 / 949 / 950 are
-    // zero-extended before decoding (XlsEncoding::high_byte answers Some(false) for every multi-byte encoding): NUL-interleaved garbage
+    // finding D44 (fixed 1eaf680): BIFF5 byte strings under the double-byte code pages 932 / 936 / 949 / 950 were
+    // zero-extended before decoding (XlsEncoding::high_byte answered Some(false) for every multi-byte encoding): NUL-interleaved garbage
     v.push(("b5 932 0 93fa967b,e697a5e69cac".into(), None));
     v.push(("b5 936 0 d6d0cec4,e4b8ade69687".into(), None));
     v.push(("b5 949 0 c7d1b1db,ed959ceab880".into(), None));
     v.push(("b5 950 1 a4a4a4e5,e4b8ade69687".into(), None));
     v.push(("b5 932 1 4142,4142".into(), None));
+    v.push((format!("b5 932 0 955c8341b141,{}", hexs("表アｱA".as_bytes())), None));
+    v.push((format!("b5 936 1 b1edb8f141,{}", hexs("表格A".as_bytes())), None));
+    v.push((format!("b5 949 1 c7a541,{}", hexs("표A".as_bytes())), None));
+    v.push((format!("b5 950 0 aaedaee6,{}", hexs("表格".as_bytes())), None));
     // whole file: BOM-like units at segment starts in SST, LABEL and a sheet name
     v.push(("file 1 case 1 6100fffe6200,~,~,0,1,1:1,-,-;fffe6100,~,~,0,1,-,-,-;-,~,~,0,1,-,-,-".into(), None));
     // fixed 9c57a3b (C06 overlap): header fields cut by a record end, negative cstUnique, cstUnique = 2^31-1 (reservation)
@@ -2155,8 +2177,8 @@ fn main() {
          below / at / above the number of strings present (the first cstUnique strings are expected, the rest of the record is ignored). \
          stage H: workbooks whose SST holds 65536+k distinct short strings (k = 1, 100, random; xlsw writer, ~60 CONTINUE records) \
          with LABELSST cells naming entries 0, 1, 255, 256, 65535, 65536, 65537, the last and random ones >= 65536. \
-         stage I: BIFF5 workbooks whose sheet name, LABEL value and defined name are byte strings (no flag byte) in code page 1252 or \
-         65001 (UTF-8), the code page given by the CODEPAGE record or forced through XlsOptions::force_codepage. \
+         stage I: BIFF5 workbooks whose sheet name, LABEL value and defined name are byte strings (no flag byte) in code page 1252, \
+         65001 (UTF-8) or one of the double-byte pages 932 / 936 / 949 / 950 (a few characters each, mixed with ASCII), the code page given by the CODEPAGE record or forced through XlsOptions::force_codepage. \
          stage G: 1-3 defined names (1..255 units; BIFF8: any characters, random 8/16-bit packing; BIFF5: Latin-1 letters as plain \
          code-page-1252 bytes, no flag byte) in a BIFF8 / BIFF5 workbook, read through Xls::new / defined_names against the stored names. \
          stage F: a small workbook stream (BOF, CODEPAGE, DATEMODE, FORMAT, XF, BOUNDSHEET, SUPBOOK, EXTERNSHEET, LBL, SST, EOF + a \
